@@ -416,7 +416,8 @@ impl Model {
         for (b, ann) in self.live_annotations() {
             for leaf in ann.target.leaves() {
                 if let MSel::Ann { a: x, .. } = leaf {
-                    if *x == a {
+                    if *x == a && !v.contains(&b) {
+                        // once, however many members name it ("none twice")
                         v.push(b);
                     }
                 }
@@ -461,14 +462,13 @@ impl Model {
         })
     }
 
-    /// chronological list (with one entry per matching path) of live annotations having a leaf matching pred
+    /// chronological list of live annotations having a leaf matching pred, each once however many of
+    /// its members match ("none twice")
     fn scan_leaves<F: Fn(&MSel) -> bool>(&self, pred: F) -> Vec<Uid> {
         let mut v = Vec::new();
         for (b, ann) in self.live_annotations() {
-            for leaf in ann.target.leaves() {
-                if pred(leaf) {
-                    v.push(b);
-                }
+            if ann.target.leaves().into_iter().any(|leaf| pred(leaf)) {
+                v.push(b);
             }
         }
         v
@@ -1066,11 +1066,14 @@ impl Model {
                 for j in (i + 1)..leaves.len() {
                     let same = match (leaves[i], leaves[j]) {
                         (MSel::Ann { a, text: t }, MSel::Ann { a: b, text: u }) => {
-                            a == b
-                                || match (t, u) {
-                                    (Some(t), Some(u)) => t.res == u.res && t.b == u.b && t.e == u.e,
-                                    _ => false,
-                                }
+                            // the same annotation named twice is a legitimate shape (two parts of it: a
+                            // discontinuous unit): reverse look-ups must then list the annotation once.
+                            // Only the same *span* twice stays unspecified.
+                            match (t, u) {
+                                (Some(t), Some(u)) => t.res == u.res && t.b == u.b && t.e == u.e,
+                                (None, None) => a == b,
+                                _ => false,
+                            }
                         }
                         (x, y) => {
                             x == y
